@@ -423,6 +423,182 @@ def _logcosh_to_closed_form(S, e, x, y):
     return e
 
 
+# ------------------------------------------------------------------------------------------------ d: Hessian times input
+def rule_d_hessian_times_input(ctx, cls, fns):
+    """accumulate_Hessian_times_input(output, current_estimate, input): by straight-line evaluation of the innermost neighbourhood
+    loop body, the summand is  w * (d20(x_c, x_nb) * v_c + d11(x_c, x_nb) * v_nb)  off the centre and  w * d20(x_c, x_nb) * v_c  at the
+    centre (times the kappa product), and every `if (..) continue;` shortcut only skips summands that are zero under its condition
+    (H v must stay linear in v: a shortcut on the neighbour's input value alone would drop the d20 * v_c part)."""
+    n = 0
+    for f in fns:
+        if f.short != "accumulate_Hessian_times_input" or f.body is None or len(f.params) != 3:
+            continue
+        defs = LocalDefs(f)
+        sub = {d: defs.single_def(d) for d in defs.decl}
+        ax = [r for r in axes_of(f, defs) if r["ok"]]
+        bylevel = {}
+        for r in ax:
+            bylevel.setdefault(r["level"], r)
+        fid = "stir::%s::accumulate_Hessian_times_input" % cls
+        if sorted(bylevel) != [0, 1, 2]:
+            ctx.unrec(fid, "neighbourhood axes not recognised")
+            continue
+        cs = ["v%d" % bylevel[i]["c"] for i in range(3)]
+        ds = ["v%d" % bylevel[i]["d"] for i in range(3)]
+        neigh = [("(+ %s %s)" % (c, d), "(+ %s %s)" % (d, c)) for c, d in zip(cs, ds)]
+        est, inp = "v%d" % f.params[1]["d"], "v%d" % f.params[2]["d"]
+        innermost = None
+        for lp in f.walk():
+            if lp.k == "ForStmt":
+                d = describe(lp, names=False)
+                if d and "v%d" % d["d"] == ds[2]:
+                    innermost = lp
+        if innermost is None:
+            ctx.unrec(fid, "innermost offset loop not found")
+            continue
+        body = innermost.c[3]
+        stmts = body.c if body.k == "CompoundStmt" else [body]
+
+        def subs_name(m):
+            root, idx = _chain(m)
+            if len(idx) != 3:
+                return None
+            ks = [key(i, False, sub) for i in idx]
+            rk = key(root, False, sub)
+            if ks == ds and rk == "this.weights":
+                return "w"
+            if ks == cs:
+                shifted = False
+            elif all(k in ab for k, ab in zip(ks, neigh)):
+                shifted = True
+            else:
+                return None
+            if "kappa" in rk:
+                return "K_nb" if shifted else "K_c"
+            if rk == est:
+                return "X_nb" if shifted else "X_c"
+            if rk == inp:
+                return "V_nb" if shifted else "V_c"
+            return None
+
+        alg = Algebra(f, names=False, inline=True)
+        alg.subscript_symbols = subs_name
+        D20, D11 = sympy.Symbol("D20", real=True), sympy.Symbol("D11", real=True)
+        Xc, Xn = alg.sym("X_c"), alg.sym("X_nb")
+
+        def ev(e):
+            """expression -> sympy, with derivative_20/11(x_c, x_nb) as the symbols D20 / D11"""
+            v = alg.expr(e)
+            for s_ in list(v.free_symbols):
+                if "derivative_20(" in s_.name or "derivative_11(" in s_.name:
+                    calls = [c for c in e.walk() if c.is_call() and (c.callee or "").split("::")[-1] in ("derivative_20", "derivative_11")]
+                    for c in calls:
+                        if alg.sym(alg.symkey(c)) == s_:
+                            a = [alg.expr(x) for x in c.call_args()]
+                            nm = (c.callee or "").split("::")[-1]
+                            if a == [Xc, Xn]:
+                                v = v.subs(s_, D20 if nm == "derivative_20" else D11)
+            return v
+
+        cur = None  # decl id of the summand local
+        state = {}  # "centre"/"off" -> expression
+        skips = []  # (condition atoms as sympy expressions that are compared with 0, node)
+        acc = None
+        okshape = True
+        why = ""
+        for st in stmts:
+            if st.k == "DeclStmt" or st.k == "VarDecl":
+                vds = [m for m in st.walk() if m.k == "VarDecl"]
+                for vd in vds:
+                    if vd.c and cur is None:
+                        cur = vd.get("d")
+                        e0 = ev(vd.c[0])
+                        state = {"centre": e0, "off": e0}
+                continue
+            if st.k == "IfStmt":
+                cond = st.c[0].strip()
+                then = st.c[1]
+                is_continue = then.k == "ContinueStmt" or (then.k == "CompoundStmt" and len(then.c) == 1 and then.c[0].k == "ContinueStmt")
+                if is_continue and len(st.c) == 2:
+                    atoms_ = []
+                    todo = [cond]
+                    while todo:
+                        c = todo.pop().strip()
+                        while c.k == "ParenExpr" and c.c:
+                            c = c.c[0].strip()
+                        if c.k == "BinaryOperator" and c.op == "||":
+                            todo += [c.c[0], c.c[1]]
+                        elif c.k in ("BinaryOperator", "CXXOperatorCallExpr") and c.op == "==" and len(c.c) == 2:
+                            l, r = c.c[0].strip(), c.c[1].strip()
+                            rv = ev(r)
+                            if rv == 0:
+                                lv = ev(l)
+                                if cur is not None and key(l) == "v%d" % cur:
+                                    lv = state["off"]
+                                atoms_.append(lv)
+                            else:
+                                atoms_.append(None)
+                        else:
+                            atoms_.append(None)
+                    skips.append((atoms_, st))
+                    continue
+                ck = key(cond, False, sub)
+                centre_test = all(("(== %s 0)" % d) in ck for d in ds) and "||" not in ck
+                if centre_test and cur is not None and len(st.c) == 3:
+                    for branch, node in (("centre", st.c[1]), ("off", st.c[2])):
+                        ups = [m for m in node.walk() if m.k == "CompoundAssignOperator" and m.op == "*=" and key(m.c[0].strip()) == "v%d" % cur]
+                        if len(ups) != 1:
+                            okshape, why = False, "centre/off-centre branch is not a single `summand *= ...`"
+                        else:
+                            state[branch] = state[branch] * ev(ups[0].c[1])
+                    continue
+                ups = [m for m in st.c[1].walk() if m.k == "CompoundAssignOperator" and m.op == "*=" and cur is not None and key(m.c[0].strip()) == "v%d" % cur]
+                if len(ups) == 1 and len(st.c) == 2 and "kappa_ptr" in ck:
+                    kf = ev(ups[0].c[1])
+                    if sympy.expand(kf - alg.sym("K_c") * alg.sym("K_nb")) != 0:
+                        okshape, why = False, "kappa factor is not kappa[c]*kappa[c+d]"
+                    continue
+                okshape, why = False, "unrecognised if-statement at line %d" % st.line
+                continue
+            if st.k == "CompoundAssignOperator" and st.op == "+=" and cur is not None and key(st.c[1].strip()) == "v%d" % cur:
+                acc = st
+                continue
+            if st.k == "CompoundAssignOperator" and st.op == "*=" and cur is not None and key(st.c[0].strip()) == "v%d" % cur:
+                e = ev(st.c[1])
+                state = {k_: v_ * e for k_, v_ in state.items()}
+                continue
+            if st.k in ("NullStmt",):
+                continue
+            okshape, why = False, "unrecognised statement %s at line %d" % (st.k, st.line)
+        if cur is None or acc is None or not okshape:
+            ctx.unrec(fid, "innermost loop body not understood: %s" % (why or "no summand / accumulation"))
+            continue
+        w, Vc, Vn = alg.sym("w"), alg.sym("V_c"), alg.sym("V_nb")
+        want_off = w * (D20 * Vc + D11 * Vn)
+        want_c = w * D20 * Vc
+        ok1 = sympy.expand(state["off"] - want_off) == 0 and sympy.expand(state["centre"] - want_c) == 0
+        ctx.ob("C09.d-hessian-times-input", fid, "summand", ok1, acc.where(), "summand = w*(d20(x_c,x_nb)*v_c + d11(x_c,x_nb)*v_nb) off the centre, w*d20*v_c at the centre" if ok1 else "summand is %s (off centre) / %s (centre)" % (state["off"], state["centre"]))
+        n += 1
+        for i, (atoms_, st) in enumerate(skips):
+            bad = []
+            for a in atoms_:
+                if a is None:
+                    bad.append("a condition that is not of the form <expr> == 0")
+                    continue
+                syms = list(a.free_symbols)
+                if a.is_Symbol:
+                    rest = [sympy.simplify(want_off.subs(a, 0)), sympy.simplify(want_c.subs(a, 0))]
+                elif a == 0:
+                    rest = [0, 0]
+                else:
+                    rest = [1]
+                if any(r != 0 for r in rest):
+                    bad.append("`%s == 0` skips a summand that is still %s" % (a, [str(r) for r in rest if r != 0][0]))
+            ctx.ob("C09.d-hessian-times-input", fid, "shortcut@%d" % i, not bad, st.where(), "the `continue` shortcut only skips summands that vanish under its condition (%s)" % ", ".join("%s == 0" % a for a in atoms_) if not bad else "; ".join(bad))
+            n += 1
+    return n
+
+
 def run(ctx):
     ctx.explanation = (
         "For QuadraticPrior, RelativeDifferencePrior and LogcoshPrior, decides: (a) in every neighbourhood loop the offset d along an axis "
@@ -445,6 +621,8 @@ def run(ctx):
         fns = insts(u)
         rule_a(ctx, cls, fns)
         rule_bc(ctx, cls, fns)
+        rule_d_hessian_times_input(ctx, cls, fns)
     ctx.require_count("C09.a-neighbours-inside-image", 30)
     ctx.require_count("C09.b-weights-kappa-penalisation", 15)
     ctx.require_count("C09.c-calculus", 10)
+    ctx.require_count("C09.d-hessian-times-input", 4)
